@@ -12,6 +12,10 @@ func getTypeFromSchema(schema *spec.Schema) (typeName string, isArray bool) {
 	if len(refStr) > 0 {
 		return refStr, false
 	}
+	if len(schema.Type) == 0 {
+		// a schema without a type: nothing to name
+		return "", false
+	}
 	typeName = schema.Type[0]
 	if typeName == ArrayType {
 		if schema.Items == nil || schema.Items.Schema == nil {
